@@ -59,7 +59,7 @@ CHECKS.update({
    ref="6 C10", note=TB_E1),
 })
 CHECKS.update({
- "C13": dict(engine=E2, technique="exhaustive enumeration of service lists x registered routes x token kinds against the real router, with a state-comparison oracle for 'no processing'; plus stateless preemption-bounded schedule exploration (statement-level scheduling points in the authorisation code) of an authenticated and an unauthenticated request in flight together; plus the real NRF registration run against an intercepted NRF for every shape of the NRF's OAuth2 declaration and of the configured NRF certificate, followed by a probe of every route",
+ "C13": dict(engine=E2, technique="exhaustive enumeration of service lists x registered routes x token kinds against the real router, with a state-comparison oracle for 'no processing'; plus stateless preemption-bounded schedule exploration (statement-level scheduling points in the authorisation code) of an authenticated and an unauthenticated request in flight together (and of two requests with the same invalid token); plus the real NRF registration run against an intercepted NRF for every shape of the NRF's OAuth2 declaration and of the configured NRF certificate, followed by a probe of every route",
    text="For each of the 16 ordered lists of distinct service names the router is built by the real NewServer; every (method, path) reported by Engine.Routes() is probed with 11 kinds of missing/malformed/wrongly signed tokens (twice each) against a world holding a live session: the answer must be 401 and balances, reservations, rating modes, records, database reads/writes, Diameter dials and notifications must be unchanged; a control probe with a valid NRF-signed token must not be 401.",
    ref="6 C13", note=TB_E1),
 })
@@ -69,7 +69,7 @@ CHECKS.update({
    ref="6 C18", note=TB_E1),
 })
 CHECKS.update({
- "C07": dict(engine=E1, technique="explicit-state BFS over credit-control request sequences against the real account-balance server (real go-diameter client/server state machines on the modelled network), reference model = map of balances; free-running -race side pass with four peers on separate connections",
+ "C07": dict(engine=E1, technique="explicit-state BFS over credit-control request sequences against the real account-balance server (real go-diameter client/server state machines on the modelled network), reference model = map of balances; free-running -race side pass with four peers on separate connections; plus stateless preemption-bounded schedule exploration of short request sequences sent over one connection per request",
    text="All sequences up to the depth bound of CCRs (4 actions x request types x 11 boundary amounts up to 2^63-1 x 3 accounts + unknown subscriber + unknown rating group) from small and near-2^63 initial balances are sent over a real Diameter connection to the server started by abmf.OpenServer; stored balances, grant, final-unit indication and the echoed Session-Id/type/number are compared with a reference model after every request; absence of an answer is decided at quiescence.",
    ref="6 C07", note=TB_E1),
 })
